@@ -76,9 +76,9 @@ def build_and_validate_headers(headers: Iterable[Tuple[bytes, bytes]]) -> List[T
     for name, value in headers:
         if not isinstance(name, (bytes, bytearray)) or not isinstance(value, (bytes, bytearray)):
             raise TypeError("Header names and values must be bytes")
-        if name[0] == b":"[0]:
-            raise ValueError("Pseudo headers are not valid")
         name, value = bytes(name).strip(), bytes(value).strip()
+        if name[:1] == b":":
+            raise ValueError("Pseudo headers are not valid")
         if _INVALID_HEADER_NAME_BYTES.intersection(name) or _INVALID_HEADER_VALUE_BYTES.intersection(
             value
         ):
